@@ -16,6 +16,10 @@ CLAIMED = {
          "exploration",
          "Honest combination proofs (arbitrary coefficients incl. 0/-1, repeated labels, constants, several LCs per point, point labels sharing a value, permuted LC lists on both sides) must be accepted; every tampered statement that contains a false claim must not be; LCs mixing a degree-bounded polynomial with other terms must be refused on both sides.",
          "3.6", "a tampered statement only counts when the reference model says it contains a false claim"),
+ "C07": ("RNG-seam simulation: every party RNG is a counted, named ChaCha20 stream; commit's draws are metered, the same session is forked under identical and under different prover streams, 16 commitments are drawn from one stream, the RNG is withheld, and commitment / state / public hiding generators / proof blinding fields are cross-checked (commitment - non-hiding commitment == <blinders, hiding generators>; random_v == blinding polynomials at the point under the traced transcript challenges)",
+         "exploration",
+         "For KZG-family, PST13, IPA and Hyrax sessions: 0 bytes drawn and no blinding without a hiding bound; >= (h+2) field elements per blinded commitment (twice for degree-bounded Marlin), blinding polynomial of degree exactly h+1; identical streams give byte-identical commitments and proofs, different streams give different hiding commitments and blinding fields; 16 repeated commitments pairwise distinct; no RNG => Err/abort.",
+         "3.7", "Hyrax under `parallel` draws its commit blinders from the hooked thread RNG, not the caller's; the non-hiding commitment used as reference is the library's own"),
  "C11": ("history simulation on a traced Fiat-Shamir sponge: sequences of up to 6 open/batch/LC operations on one shared sponge with crash-restart of either party, lock-step invariants after every prefix, and proofs re-delivered at other positions / against diverged or stale sponge states",
          "exploration",
          "After every prefix of the history the check accepts and prover and verifier sponges are byte-identical (state, mode, trace shape, next squeeze); a claim verified against any other transcript state (moved, stale snapshot, dropped/altered/duplicated prior absorb) is not accepted unless all its polynomials are constant.",
